@@ -716,12 +716,26 @@ def callsite_config_agreement(ctx, rid, callee, params, what=""):
         raise AnalysisError(f"{rid}: function {callee} not found")
     pnames = [a.arg for a in target.args.posonlyargs + target.args.args]
     sites = []
+    owner = {}
     for m, q, f in tree.all_funcs():
         if m.rel.startswith("infretis/tools"):
             continue
         for c in walk_local(f):
             if isinstance(c, ast.Call) and last_name(c) == callee and f is not target:
                 sites.append((q, c))
+                owner[id(c)] = f
+
+    def _through_local(arg, c):
+        """a local that holds the configuration value: `lm1 = cfg[...][...]` hoisted above the call"""
+        if isinstance(arg, ast.Name):
+            from ..flow import deref as _deref, flow_of as _flow_of
+            try:
+                fl_ = _flow_of(owner[id(c)])
+                e2, _ = _deref(fl_, arg, fl_.cfg.node_of(c))
+                return e2
+            except Exception:
+                return arg
+        return arg
     if len(sites) < 2:
         from ..loader import AnalysisError
         raise AnalysisError(f"{rid}: {len(sites)} call site(s) of {callee} found (expected >= 2)")
@@ -734,6 +748,8 @@ def callsite_config_agreement(ctx, rid, callee, params, what=""):
             for k in c.keywords:
                 if k.arg == p:
                     arg = k.value
+            if arg is not None:
+                arg = _through_local(arg, c)
             origins.append((q, c, arg, config_origin(arg, props, dictkeys) if arg is not None else "<default>"))
         vals = {o for _, _, _, o in origins}
         if len(vals) == 1 and None not in vals:
